@@ -992,10 +992,13 @@ def external(I, run, name: str, args, kwargs, node, recv=None, kind=None) -> Val
             ch = run.choose(len(excs) + 1, I.locof(node), f"{name} raises")
             if ch > 0:
                 cn = excs[ch - 1]
+                eargs = ()
+                if isinstance(cn, tuple):
+                    cn, eargs = cn[0], tuple(cn[1])
                 e.ret = None
                 e.kwargs = dict(e.kwargs)
                 e.kwargs["@raised"] = C(cn)
-                raise RaiseSig(run.alloc(HObj(cn, {"args": Tup(())})), node)
+                raise RaiseSig(run.alloc(HObj(cn, {"args": Tup(eargs)})), node)
     return ret
 
 
